@@ -246,16 +246,30 @@ func (c *Ctx) logGlobal(name string) *ssa.Global {
 
 // method returns the SSA function for (*T).name or T.name (declared or promoted).
 func (c *Ctx) method(t types.Type, name string) *ssa.Function {
+	var wrapper *ssa.Function
 	for _, tt := range []types.Type{types.NewPointer(t), t} {
 		ms := c.Prog.MethodSets.MethodSet(tt)
 		for i := 0; i < ms.Len(); i++ {
 			sel := ms.At(i)
 			if sel.Obj().Name() == name {
-				return c.Prog.MethodValue(sel)
+				f := c.Prog.MethodValue(sel)
+				if f == nil {
+					continue
+				}
+				// prefer the declared function over a synthetic wrapper (promotion / pointer-receiver thunk)
+				if f.Synthetic == "" {
+					return f
+				}
+				if d := c.Prog.FuncValue(sel.Obj().(*types.Func)); d != nil && d.Synthetic == "" {
+					return d
+				}
+				if wrapper == nil {
+					wrapper = f
+				}
 			}
 		}
 	}
-	return nil
+	return wrapper
 }
 
 // declaredMethod returns the method only if declared directly on T (not promoted).
